@@ -54,6 +54,38 @@ example : FastaRenders [⟨[120], [100, 32, 101], [97, 99, 103, 116]⟩]
 example : readAll {} ([32, 13, 10] ++ [62, 120, 32, 100, 32, 101, 9, 13, 10] ++ [97, 13, 10] ++ [13, 10] ++ [99, 103, 116, 32])
     = [.ret ⟨some ⟨[120], [100, 32, 101], [97, 99, 103, 116]⟩, none⟩, .ret ⟨none, some .eof⟩] := by decide
 
+/-! #### terminators and white space, for every input
+
+The reader sees a byte string only through `view bs`: its non-blank lines after
+`bytes.TrimSpace` (`fasta_view`).  Hence, for *every* byte string, a valid file or not: -/
+
+/-- two inputs with the same non-blank trimmed lines give the same call history -/
+theorem fasta_view (bs bs' : Bytes) (h : view bs = view bs') : readAll {} bs = readAll {} bs' :=
+  readAll_view bs bs' h
+
+/-- **CRLF instead of LF** (every LF replaced by CR LF) -/
+theorem fasta_crlf_any (bs : Bytes) : readAll {} (toCRLF bs) = readAll {} bs :=
+  readAll_view _ _ (view_toCRLF bs)
+
+/-- **final newline** present or omitted -/
+theorem fasta_final_newline_any (bs : Bytes) : readAll {} (bs ++ [10]) = readAll {} bs :=
+  readAll_view _ _ (view_snoc_lf bs)
+
+/-- **trailing white space** (tab, VT, FF, CR, space) before any line terminator, and at the
+    end of an input without final newline -/
+theorem fasta_trailing_blanks_any (a blanks b : Bytes) (hb : ∀ x ∈ blanks, isBlank x = true) :
+    readAll {} (a ++ blanks ++ 10 :: b) = readAll {} (a ++ 10 :: b) ∧
+    readAll {} (a ++ blanks) = readAll {} a :=
+  ⟨readAll_view _ _ (viewOf_trailing_blanks a blanks b hb []).1,
+   readAll_view _ _ (viewOf_trailing_blanks a blanks b hb []).2⟩
+
+/-- **blank lines** (empty or blanks only) inserted before the first line, between two lines or
+    after the last terminated line -/
+theorem fasta_blank_line_any (a blanks b : Bytes) (hb : ∀ x ∈ blanks, isBlank x = true)
+    (ha : a = [] ∨ a.getLast? = some 10) :
+    readAll {} (a ++ (blanks ++ 10 :: b)) = readAll {} (a ++ b) :=
+  readAll_view _ _ (viewOf_blank_line a blanks b hb [] (ha.imp (fun h => ⟨h, rfl⟩) id))
+
 end fasta
 
 section fastq
